@@ -8,6 +8,12 @@ def _ids(pa, start):
     if 'ident' not in pa.properties:
         pa.add_property('ident')
     pa.ident[:] = np.arange(start, start + n, dtype=float)
+    # a strided property that says which particle each of its rows belongs
+    # to: whatever permutes particles must move the rows with them
+    if 'sid' not in pa.properties:
+        pa.add_property('sid', stride=3)
+    i = np.arange(start, start + n, dtype=float)
+    pa.sid[:] = np.column_stack([i, 2.0 * i + 1.0, -i]).ravel()
     pa.add_output_arrays(['ident', 'gid'])
     return start + n
 
